@@ -159,6 +159,12 @@ func runStack(t *testing.T, run *vt.Run, c vt.CaseID, rng *rand.Rand, sc stackCa
 				val = append(append([]byte(nil), val...), []byte(fmt.Sprintf("#%d", op))...)
 			}
 			ttl := time.Duration(1+rng.IntN(120)) * time.Second
+			nonPositive := rng.IntN(12) == 0
+			if nonPositive {
+				// a zero or negative time-to-live is legal: the entry is stored and has expired already; it
+				// must still replace whatever was stored under the key before
+				ttl = []time.Duration{0, -time.Minute}[rng.IntN(2)]
+			}
 			rec.mu.Lock()
 			rec.touched = nil
 			rec.mu.Unlock()
@@ -191,6 +197,9 @@ func runStack(t *testing.T, run *vt.Run, c vt.CaseID, rng *rand.Rand, sc stackCa
 				}
 				oplog = append(oplog, fmt.Sprintf("v%d SetMultiAsync %d keys ttl=%v", cl.ver, len(data), ttl))
 			case r == 3:
+				if nonPositive {
+					ttl = time.Duration(1+rng.IntN(120)) * time.Second // Add keeps positive lifetimes
+				}
 				err := cl.c.Add(ctx, key, val, ttl)
 				if err == nil {
 					store(ci, key, val, ttl)
